@@ -883,6 +883,19 @@ func isBuilderEffect(p *Prog, in ssa.Instruction) (string, bool) {
 		}
 		o := calleeObj(x)
 		if isFunc(o, "io/ioutil", "TempDir") || isFunc(o, "os", "MkdirTemp") || isFunc(o, "os", "DirFS") || isFunc(o, "os", "Rename") {
+			// ... of a Builder: some argument derives from one of its fields (a rename elsewhere in the package —
+			// in the code that opens or extracts a bundle — is not the builder's effect)
+			ofBuilder := false
+			for _, a := range x.Common().Args {
+				for w := range p.backSlice(a, 1) {
+					if fa, ok := w.(*ssa.FieldAddr); ok && isNamedT(derefType(fa.X.Type()), "Builder") {
+						ofBuilder = true
+					}
+				}
+			}
+			if !ofBuilder {
+				return "", false
+			}
 			return "use of the target directory in " + shortCallee(fullName(o)), true
 		}
 	}
